@@ -803,7 +803,7 @@ def check_C05(v, tier, seed):
     cov["handle_constructors"] = ctor
     strace_tie_step(v, "C05", [["root", "--ops", "all", "--seed", str(seed + 37), "--n", str(sizes(tier, 200, 3000))],
                                ["root", "--ops", "all", "--seed", str(seed + 67), "--n", str(sizes(tier, 120, 1500)), "--unpriv"],
-                               ["root", "--ops", "remove_all", "--seed", str(seed + 71), "--n", str(sizes(tier, 100, 1000)), "--unpriv"],
+                               ["root", "--ops", "remove_all", "--seed", str(seed + 60), "--n", str(sizes(tier, 250, 1500)), "--unpriv"],
                                ["proc-live", "--seed", str(seed + 41), "--n", str(sizes(tier, 60, 600))],
                                ["reopen", "--seed", str(seed + 43)]], cov)
     return cov
